@@ -283,6 +283,11 @@ def factory(shape, body="plain"):
         ret = "return ('r', MID)"
     elif body == "cn":
         ret = f"return ('r', MID, call_next({same}))"
+    elif body == "cnk":
+        # call_next with every positional-or-keyword parameter given by name (positional-only ones stay positional)
+        po = [nm for nm, kind, _ in params if kind == "P"]
+        byname = [f"{nm}={nm}" for nm, kind, _ in params if kind in "NK"]
+        ret = f"return ('r', MID, call_next({', '.join(po + byname)}))"
     elif body == "next":
         pos = ", ".join(nm for nm, kind, _ in params if kind in "PN")
         ret = f"return ('r', MID, F[0].next({pos}))"
